@@ -49,21 +49,23 @@ type Model struct {
 	// only for keys that no other command touches (the HLL shares the KV keyspace; DEL, GET,
 	// EXPIRE ... on such a key are not modelled).
 	PF map[string]map[string]bool
-	// Deviations switches documented/observed behaviour of the implementation that differs
-	// from Redis and is accepted (see DESIGN.md §4 C08 "deviations"); each is a named flag so
+	// Deviations switches observed behaviour of the implementation that differs from Redis.
+	// Reply-only differences are recorded as known findings of C08 and switched by them, so
+	// that every check using this model leaves exactly that reply out; each is a named flag so
 	// that the evidence can list what was modelled rather than checked.
 	Dev Deviations
 }
 
 type Deviations struct {
-	IncrWraps          bool // INCR/INCRBY/HINCRBY wrap on int64 overflow instead of failing
-	TTLMissingIsMinus1 bool // TTL of a missing key is -1 (Redis: -2)
+	IncrWraps          bool // INCR/INCRBY/HINCRBY wrap on int64 overflow instead of failing (the pinned tree did; repaired, off)
+	TTLMissingIsMinus1 bool // TTL of a missing key is -1 (Redis: -2); on while known finding C08-ttl-of-missing-key-is-minus-one is open
+	PersistAlwaysOne   bool // PERSIST answers 1 for every existing key (Redis: 0 if it had no expiry); on while C08-persist-answers-one-without-expiry is open
 	LocalDeletion      bool // local-deletion policy: expiry instants are recorded for background deletion only and never change what commands see
 }
 
 func New() *Model {
 	return &Model{KV: map[string]*kvVal{}, Hash: map[string]*hashVal{}, List: map[string]*listVal{}, Set: map[string]*setVal{}, ZSet: map[string]*zsetVal{}, PF: map[string]map[string]bool{},
-		Dev: Deviations{IncrWraps: true, TTLMissingIsMinus1: true}}
+		Dev: Deviations{TTLMissingIsMinus1: known.Active("C08-ttl-of-missing-key-is-minus-one"), PersistAlwaysOne: known.Active("C08-persist-answers-one-without-expiry")}}
 }
 
 func dead(exp int64, sec int64) bool { return exp > 0 && sec >= exp }
@@ -549,7 +551,10 @@ func (m *Model) cmdPersist(name, k string, sec int64) Val {
 	if p == nil {
 		return Int(0)
 	}
-	// deviation (reply only): 1 whenever the key exists, also when it had no expiry (Redis: 0)
+	if *p == 0 && !m.Dev.PersistAlwaysOne {
+		return Int(0)
+	}
+	// recorded finding (reply only): 1 whenever the key exists, also when it had no expiry (Redis: 0)
 	*p = 0
 	return Int(1)
 }
